@@ -760,7 +760,13 @@ impl Context {
                     })
                     .try_collect()?;
                 let is_const = fields.iter().all(|(_, is_const)| *is_const);
-                let fields = fields.into_iter().map(|f| f.0).join(",");
+                let mut fields = fields.into_iter().map(|f| f.0).join(",");
+                if self.keep_unknown_fields.contains(did) {
+                    if !fields.is_empty() {
+                        fields.push(',');
+                    }
+                    fields.push_str("_unknown_fields: ::pilota::LinkedBytes::new()");
+                }
 
                 let name = self.cur_related_item_path(*did);
 
